@@ -84,6 +84,10 @@ type SeqSpec struct {
 	MaxStates int
 	// Sweep: depth-1 only operations, tried from every reached state but never chained
 	Sweep []Op
+	// InitSweep: like Sweep, but tried from the initial states only (large families of macro steps)
+	InitSweep []Op
+	// InitSweepEvery n > 1: only from every n-th initial state (specs with hundreds of them)
+	InitSweepEvery int
 	Proto int
 	// Long: deterministic long histories (table growth / shrink); every step is compared on
 	// reply and full observable state.
@@ -93,6 +97,37 @@ type SeqSpec struct {
 	LazyFrom int
 	// ObserveAll: dump the state through every connected session, not only through the observer
 	ObserveAll bool
+}
+
+// sweepFor: the sweep operations tried from the state reached by path
+func (spec *SeqSpec) sweepFor(init int, path []int) []Op {
+	if len(path) > 0 || len(spec.InitSweep) == 0 || (spec.InitSweepEvery > 1 && init%spec.InitSweepEvery != spec.InitSweepEvery-1) {
+		return spec.Sweep
+	}
+	return append(append([]Op{}, spec.Sweep...), spec.InitSweep...)
+}
+
+// staleSweep: macro steps "read; change; [change;] reads" for every read, every change and every
+// pair of changes: whatever a read leaves behind in the implementation (a remembered position, a
+// cached length, a memoised lookup) and a later change forgets to invalidate shows in the reads
+// at the end, which come in both orders. The model never sees a difference between a state and the
+// same state after a read - that is exactly why the search over model states cannot find these.
+func staleSweep(reads, changes []Op) []Op {
+	var final []Op
+	for i := len(reads) - 1; i >= 0; i-- {
+		final = append(final, reads[i])
+	}
+	final = append(final, reads...)
+	var out []Op
+	for _, r := range reads {
+		for _, m1 := range changes {
+			out = append(out, Op{Args: r.Args, Then: append([]Op{m1}, final...)})
+			for _, m2 := range changes {
+				out = append(out, Op{Args: r.Args, Then: append([]Op{m1, m2}, final...)})
+			}
+		}
+	}
+	return out
 }
 
 // ---- one transition on the implementation ------------------------------------------------
@@ -675,7 +710,7 @@ func seqWorker(spec *SeqSpec) {
 		ops := spec.Alphabet
 		run := spec.Alphabet
 		if t.Sweep {
-			run = spec.Sweep
+			run = spec.sweepFor(t.Init, t.Path)
 		}
 		cur.mu.Lock()
 		cur.task, cur.res = &t, nil
@@ -844,7 +879,7 @@ func runSeqCheck(spec *SeqSpec, tier string, rep *Report) {
 			r := <-results
 			run := spec.Alphabet
 			if sweep {
-				run = spec.Sweep
+				run = spec.sweepFor(r.Task.Init, r.Task.Path)
 			}
 			if r.Hang == -2 {
 				rep.HarnessErr = append(rep.HarnessErr, fmt.Sprintf("worker died twice on task %+v", r.Task))
@@ -936,7 +971,7 @@ func runSeqCheck(spec *SeqSpec, tier string, rep *Report) {
 			exhaustive = false
 			break
 		}
-		if len(spec.Sweep) > 0 {
+		if len(spec.Sweep) > 0 || (d == 0 && len(spec.InitSweep) > 0) {
 			process(frontier, true)
 			sweepDone += len(frontier)
 		}
@@ -966,6 +1001,7 @@ func runSeqCheck(spec *SeqSpec, tier string, rep *Report) {
 	addCov("blocked_outcomes_confirmed", blockedOK)
 	addCov("alphabet_size", len(spec.Alphabet))
 	addCov("sweep_ops", len(spec.Sweep))
+	addCov("init_sweep_ops", len(spec.InitSweep))
 	if old, ok := rep.Coverage["depth_completed"].(int); !ok || depthDone < old {
 		rep.Coverage["depth_completed"] = depthDone
 	}
